@@ -115,38 +115,21 @@ Proof.
 Qed.
 
 (* ---------- names ---------- *)
-(* the guard speaks about cross-reads and GraphQL-name uniqueness; distinct Python names come from FreshP *)
-Lemma names_ok_go_pairs snake all fs : names_ok_go snake all fs = true ->
-  forall f g, In f fs -> In g fs -> i_name f <> i_name g ->
-  fname snake all (i_name f) <> i_name g.
-Proof.
-  induction fs as [|h r IH]; simpl; intros H f g Hf Hg Hn; [contradiction|].
-  apply andb_true_iff in H as [H1 H2]. rewrite forallb_forall in H1.
-  destruct Hf as [<-|Hf], Hg as [<-|Hg].
-  - congruence.
-  - specialize (H1 g Hg). repeat (apply andb_true_iff in H1 as [H1 ?]).
-    intro X; rewrite X in *; rewrite ?String.eqb_refl in *; simpl in *; discriminate.
-  - specialize (H1 f Hf). repeat (apply andb_true_iff in H1 as [H1 ?]).
-    intro X; rewrite X in *; rewrite ?String.eqb_refl in *; simpl in *; discriminate.
-  - apply IH; assumption.
-Qed.
-
-Lemma names_ok_go_nodup snake all fs : names_ok_go snake all fs = true -> NoDup (map i_name fs).
+(* the guard is only uniqueness of the GraphQL field names; distinct Python names and "never the GraphQL name of
+   another field" come from the de-duplication loop (FreshP) *)
+Lemma names_ok_nodup snake fs : names_ok_fields snake fs = true -> NoDup (map i_name fs).
 Proof.
   induction fs as [|h r IH]; simpl; intros H; [constructor|].
   apply andb_true_iff in H as [H1 H2]. constructor; [|apply IH; exact H2].
   intro X. apply in_map_iff in X as [g [E Hg]]. rewrite forallb_forall in H1. specialize (H1 g Hg).
-  repeat (apply andb_true_iff in H1 as [H1 ?]). rewrite E, String.eqb_refl in *. discriminate.
+  rewrite E, String.eqb_refl in H1. discriminate.
 Qed.
-
-Lemma names_ok_nodup snake fs : names_ok_fields snake fs = true -> NoDup (map i_name fs).
-Proof. apply names_ok_go_nodup. Qed.
 
 Lemma names_ok_pairs snake fs : names_ok_fields snake fs = true ->
   forall f g, In f fs -> In g fs -> i_name f <> i_name g ->
   fname snake fs (i_name f) <> fname snake fs (i_name g) /\ fname snake fs (i_name f) <> i_name g.
 Proof.
-  intros N f g Hf Hg Hn. split; [|apply (names_ok_go_pairs snake fs fs N f g Hf Hg Hn)].
+  intros N f g Hf Hg Hn. split; [|apply (fname_not_other snake fs f g Hf Hg Hn)].
   intro E. apply Hn.
   pose proof (fname_nodup snake fs (names_ok_nodup snake fs N)) as ND.
   f_equal. apply (nodup_map_inj (fun f => fname snake fs (i_name f)) fs ND f g Hf Hg E).
